@@ -66,7 +66,8 @@ impl<'a, W: Write<Error = E>, E: Error> Writer<'a, W, E> {
     }
 
     pub fn writeln_str(&mut self, text: &str) -> Result<(), E> {
-        self.writer.write_str(text)?;
+        // use own write_str so line feeds inside text are also converted
+        self.write_str(text)?;
         self.writer.write_str(codes::CRLF)?;
         self.dirty = false;
         Ok(())
